@@ -134,6 +134,22 @@ def _direct_linear(spec):
     _walk(spec['tree'], fn)
 
 
+def _denest_linear(spec):
+    """An iterative linear solver that cannot reach its tolerance (round-off floor under output scaling) runs to
+    maxiter; nested three deep that is maxiter^3 sweeps.  Keep at most ONE iterative linear solver on any root-to-leaf
+    path; the groups below it get a DirectSolver."""
+    def rec(node, above):
+        if 'comp' in node:
+            return
+        it = node.get('ln', {}).get('type') in ('lnbgs', 'lnbj', 'krylov', 'krylov+lnbgs')
+        if it and above:
+            node['ln'] = {'type': 'direct', 'assemble_jac': False}
+            it = False
+        for ch in node['children']:
+            rec(ch, above or it)
+    rec(spec['tree'], False)
+
+
 def _avoid_known_c08(spec):
     """array ref0 + scalar ref + src_indices subset makes final_setup raise (recorded C08 finding): give such
     outputs an array ref as well."""
@@ -214,8 +230,11 @@ def _gen_op(rng, kind, spec, cfg, tabs):
             op['of'] = rng.sample(of, rng.randint(1, len(of)))
             op['wrt'] = rng.sample(wrt, rng.randint(1, len(wrt)))
         if rng.random() < 0.2:
+            # the driver's own (caching) entry point, always called the way a driver calls it
             op['via'] = 'driver._compute_totals'
             op['driver'] = True
+            op['return_format'] = 'array'
+            op['driver_scaling'] = True
     elif kind == 'jacvec':
         op['vseed'] = rng.randrange(10 ** 6)
         op['as_dict'] = rng.random() < 0.5
@@ -261,7 +280,7 @@ def _gen_op(rng, kind, spec, cfg, tabs):
         op['flags'] = _flags(rng, names)
         if kind == 'list_outputs':
             op['flags']['explicit'] = rng.random() < 0.85
-            op['flags']['implicit'] = rng.random() < 0.85
+            op['flags']['implicit'] = rng.random() < 0.85 or not op['flags']['explicit']
         # (residuals_tol with a string-valued discrete output raises ValueError - not a C31 matter)
         if kind != 'list_inputs' and rng.random() < 0.3 and not cfg['discrete']:
             op['flags']['residuals_tol'] = rng.choice([1e-12, 1e-3, 10.0])
@@ -328,6 +347,7 @@ def make_plan(seed):
     colorable = rng.random() < 0.5
     if colorable:
         _direct_linear(spec)
+    _denest_linear(spec)
     tabs = _var_tables(spec)
     outs, ins, params = tabs
     sizes = {v['name']: int(np.prod(v['shape'])) for v in outs + params}
@@ -634,6 +654,11 @@ def _build(plan):
     if cfg['approx_totals']:
         model.approx_totals(**cfg['approx_totals'])
     prob.setup(mode=cfg['mode'], force_alloc_complex=cfg['fac'])
+    # bound the cost of iterative solvers that sit on their round-off floor
+    for s in model.system_iter(include_self=True, recurse=True):
+        ln = getattr(s, '_linear_solver', None)
+        if ln is not None and 'maxiter' in ln.options:
+            ln.options['maxiter'] = min(ln.options['maxiter'], 60)
     return prob
 
 
@@ -725,7 +750,8 @@ def _query(prob, op, plan):
         r = getattr(s, k)(out_stream=stream, return_format=op['return_format'], **op['flags'])
         if isinstance(r, dict):
             r = sorted(r.items())
-        return [(n, {kk: vv for kk, vv in m.items() if kk in ('val', 'value', 'resids', 'min', 'max', 'mean')})
+        # ('resids' are the content of the residual vector, which the property does not cover)
+        return [(n, {kk: vv for kk, vv in m.items() if kk in ('val', 'value', 'min', 'max', 'mean')})
                 for n, m in r]
     if k == 'get_val':
         kw = {}
@@ -773,17 +799,48 @@ def _vals_only(r):
     return out
 
 
+class HarnessError(Exception):
+    pass
+
+
+_APPROX_ATTRS = ('_jacobian', '_owns_approx_jac', '_owns_approx_of', '_owns_approx_wrt', '_owns_approx_jac_meta',
+                 '_subjacs_info', '_approx_schemes')
+
+
+def _save_approx(model):
+    d = {}
+    for a in _APPROX_ATTRS:
+        v = getattr(model, a, None)
+        d[a] = dict(v) if isinstance(v, dict) else v
+    return d
+
+
+def _restore_approx(model, saved):
+    for a, v in saved.items():
+        setattr(model, a, dict(v) if isinstance(v, dict) else v)
+
+
+# interventions used to DIAGNOSE a hidden-state discrepancy: the named piece of internal state is put back right
+# after the suspected query call; if the discrepancy disappears the mechanism is identified.
+MECHS = [('leftover-linear-vectors', ('lin',)),
+         ('leftover-residual-vector', ('lin', 'resid')),
+         ('broyden-jacobian-carried-over', ('lin', 'broyden')),
+         ('approx-options-overwritten', ('lin', 'approx'))]
+
+
 class HistoryRun:
     """One problem instance executing (a subset of) the plan's history."""
 
     def __init__(self, plan):
         self.plan = plan
-        self.results = {}       # op index -> result
+        self.results = {}       # op index -> result of a kept step
         self.ro_viol = []       # (key, what, op index)
-        self.exc = []           # (key, what, op index)
+        self.qexc = None        # (key, what, op index): a query call raised -> the case cannot be judged
+        self.fatal = None       # (key, what, op index, where): setup / set_val / run_model raised
         self.counts = {}
         self.first = None
         self.changed_at = set()     # query steps that changed a vector
+        self.prob = None
 
     def count(self, k):
         self.counts[k] = self.counts.get(k, 0) + 1
@@ -795,125 +852,149 @@ class HistoryRun:
             kw['units'] = op['units']
         prob.set_val(op['name'], val, **kw)
 
-    def run(self, include=None, keep_lin_across=(), keep_broyden_across=()):
-        plan = self.plan
-        cfg = plan['cfg']
-        from omv.gen.c31_kit import discrete_restore
-        prob = _build(plan)
-        self.prob = prob
-        model = prob.model
+    def run(self, include=None, keep_across=None):
+        """include: indices of the history steps to execute (None = all);
+        keep_across: {step index: tuple of 'lin' | 'resid' | 'broyden' | 'approx'} = internal state that is put back
+        right after that query call (diagnosis only)."""
+        keep_across = keep_across or {}
+        step = -1
         try:
             with contextlib.redirect_stdout(io.StringIO()):
-                for op in plan['init']:
+                self.prob = prob = _build(self.plan)
+                for op in self.plan['init']:
                     self._set(prob, op)
                 prob.run_model()
-                self.first = Snap(model).as_result()
+                self.first = Snap(prob.model).as_result()
                 stale = False
-                for i, op in enumerate(plan['hist']):
-                    if include is not None and i not in include:
+                for step, op in enumerate(self.plan['hist']):
+                    if include is not None and step not in include:
                         continue
-                    k = op['op']
-                    if k == 'set_val':
-                        self._set(prob, op)
-                        stale = True
-                    elif k == 'set_discrete':
-                        prob.set_val('dsrc.k', op['k'])
-                        prob.set_val('dsrc.tag', op['tag'])
-                        stale = True
-                    elif k == 'run_model':
-                        prob.run_model()
-                        stale = False
-                        self.results[i] = Snap(model).as_result()
-                    elif k == 'rerun':
-                        s0 = Snap(model)
-
-                        def again(zero, fresh=False):
-                            model._inputs.set_val(s0.inputs)
-                            model._outputs.set_val(s0.outputs)
-                            discrete_restore(model, s0.discrete)
-                            if Snap(model).diff(s0):
-                                raise RuntimeError('harness: state could not be restored')
-                            if zero:
-                                _zero_linear(model)
-                            if fresh:
-                                _fresh_broyden(model)
-                            prob.run_model()
-                            return Snap(model)
-                        prob.run_model()
-                        o1 = Snap(model)
-                        o2 = again(False)
-                        stale = False
-                        self.count('obs:rerun')
-                        df = o1.diff(o2)
-                        if df:
-                            # diagnosis by intervention: does the difference vanish when the LINEAR vectors (left over
-                            # from the previous solve, used as initial guess by iterative linear solvers) are zeroed?
-                            # ... or when every BroydenSolver is told to start from a fresh jacobian?
-                            o3 = again(True)
-                            o4 = again(True)
-                            mech = None
-                            if not o3.diff(o4):
-                                mech = 'leftover-linear-vectors'
-                            elif _broydens(model):
-                                o5 = again(True, True)
-                                o6 = again(True, True)
-                                if not o5.diff(o6):
-                                    mech = 'broyden-jacobian-carried-over'
-                            nls = '+'.join(n for n in plan['nls'] if n != 'runonce') or 'runonce'
-                            for which, txt in df:
-                                if mech:
-                                    key = '%s:run_model-twice:%s-differ' % (mech, which)
-                                else:
-                                    key = 'run_model-twice:%s-differ:nl=%s' % (which, nls)
-                                self.ro_viol.append((key, 'second run_model from the restored state: ' + txt, i))
-                        self.results[i] = Snap(model).as_result()
-                    else:
-                        lab = _label(op, cfg)
-                        before = Snap(model)
-                        lin = _save_linear(model) if i in keep_lin_across else None
-                        bro = _save_broyden(model) if i in keep_broyden_across else None
-                        try:
-                            res = _query(prob, op, plan)
-                            self.count('obs:' + lab)
-                        except Exception as e:  # noqa
-                            from openmdao.utils.om_warnings import OMInvalidCheckDerivativesOptionsWarning
-                            if isinstance(e, OMInvalidCheckDerivativesOptionsWarning):
-                                # documented refusal: check options identical to the approximation's own options
-                                self.count('obs:check-refused-same-options')
-                                res = None
-                            else:
-                                if os.environ.get('OMV_DEBUG'):
-                                    import traceback
-                                    traceback.print_exc()
-                                self.exc.append((exc_key(lab, e), '%s: %s' % (type(e).__name__,
-                                                                              str(e)[:300].replace('\n', ' ')), i))
-                                return self
-                        after = Snap(model)
-                        if stale:
-                            self.count('obs:stale-query')
-                        if before.discrete:
-                            self.count('obs:discrete-snapshots')
-                        for which, txt in before.diff(after):
-                            mech = _classify_change(model, which, getattr(before, which, None),
-                                                    getattr(after, which, None), stale)
-                            if mech:
-                                key = '%s:%s-changed:%s' % (mech, which, lab)
-                            else:
-                                key = '%s:%s-changed%s' % (lab, which, ':stale-model' if stale else '')
-                            self.ro_viol.append((key, '%s changed across %s: %s' % (which, lab, txt), i))
-                            self.changed_at.add(i)
-                        if lin is not None:
-                            _restore_linear(model, lin)
-                        if bro is not None:
-                            _restore_broyden(model, bro)
-                        if op.get('keep'):
-                            self.results[i] = copy.deepcopy(res)
+                    stale = self._step(prob, step, op, stale, keep_across.get(step, ()))
+                    if self.qexc:
+                        break
+        except HarnessError:
+            raise
+        except Exception as e:   # noqa   setup / set_val / run_model raised on a legal program
+            if os.environ.get('OMV_DEBUG'):
+                import traceback
+                traceback.print_exc()
+            from omv.kit.gmon import exc_where
+            self.fatal = (exc_key('setup-or-run', e), '%s: %s' % (type(e).__name__, str(e)[:300].replace('\n', ' ')),
+                          step, exc_where(e))
         finally:
             try:
-                prob.cleanup()
+                if self.prob is not None:
+                    self.prob.cleanup()
             except Exception:
                 pass
         return self
+
+    def _step(self, prob, i, op, stale, interventions):
+        from omv.gen.c31_kit import discrete_restore
+        plan = self.plan
+        cfg = plan['cfg']
+        model = prob.model
+        k = op['op']
+        if k == 'set_val':
+            self._set(prob, op)
+            return True
+        if k == 'set_discrete':
+            prob.set_val('dsrc.k', op['k'])
+            prob.set_val('dsrc.tag', op['tag'])
+            return True
+        if k == 'run_model':
+            prob.run_model()
+            self.results[i] = Snap(model).as_result()
+            return False
+        if k == 'rerun':
+            s0 = Snap(model)
+
+            def again(zero, fresh=False):
+                model._inputs.set_val(s0.inputs)
+                model._outputs.set_val(s0.outputs)
+                discrete_restore(model, s0.discrete)
+                if Snap(model).diff(s0):
+                    raise HarnessError('state could not be restored')
+                if zero:
+                    _zero_linear(model)
+                if fresh:
+                    _fresh_broyden(model)
+                prob.run_model()
+                return Snap(model)
+            prob.run_model()
+            o1 = Snap(model)
+            o2 = again(False)
+            self.count('obs:rerun')
+            df = o1.diff(o2)
+            if df:
+                # diagnosis by intervention: does the difference vanish when the LINEAR vectors (left over from the
+                # previous solve; initial guess of iterative linear solvers) are zeroed before both runs?  ... or when
+                # every BroydenSolver is additionally told to start from a fresh jacobian?
+                mech = None
+                if not again(True).diff(again(True)):
+                    mech = 'leftover-linear-vectors'
+                elif _broydens(model) and not again(True, True).diff(again(True, True)):
+                    mech = 'broyden-jacobian-carried-over'
+                nls = '+'.join(n for n in plan['nls'] if n != 'runonce') or 'runonce'
+                for which, txt in df:
+                    if mech:
+                        key = '%s:run_model-twice:%s-differ' % (mech, which)
+                    else:
+                        key = 'run_model-twice:%s-differ:nl=%s' % (which, nls)
+                    self.ro_viol.append((key, 'second run_model from the restored state: ' + txt, i))
+            self.results[i] = Snap(model).as_result()
+            return False
+        # ---- query call -------------------------------------------------------------------------------
+        lab = _label(op, cfg)
+        before = Snap(model)
+        saved = {}
+        if 'lin' in interventions:
+            saved['lin'] = _save_linear(model)
+        if 'broyden' in interventions:
+            saved['broyden'] = _save_broyden(model)
+        if 'approx' in interventions:
+            saved['approx'] = _save_approx(model)
+        if 'resid' in interventions:
+            saved['resid'] = model._residuals.asarray(copy=True)
+        try:
+            res = _query(prob, op, plan)
+            self.count('obs:' + lab)
+        except Exception as e:  # noqa
+            from openmdao.utils.om_warnings import OMInvalidCheckDerivativesOptionsWarning
+            if isinstance(e, OMInvalidCheckDerivativesOptionsWarning):
+                # documented refusal: check options identical to the approximation's own options
+                self.count('obs:check-refused-same-options')
+                res = None
+            else:
+                if os.environ.get('OMV_DEBUG'):
+                    import traceback
+                    traceback.print_exc()
+                self.qexc = (exc_key(lab, e), '%s: %s' % (type(e).__name__, str(e)[:300].replace('\n', ' ')), i)
+                return stale
+        after = Snap(model)
+        if stale:
+            self.count('obs:stale-query')
+        if before.discrete:
+            self.count('obs:discrete-snapshots')
+        for which, txt in before.diff(after):
+            mech = _classify_change(model, which, getattr(before, which, None), getattr(after, which, None), stale)
+            if mech:
+                key = '%s:%s-changed:%s' % (mech, which, lab)
+            else:
+                key = '%s:%s-changed%s' % (lab, which, ':stale-model' if stale else '')
+            self.ro_viol.append((key, '%s changed across %s: %s' % (which, lab, txt), i))
+            self.changed_at.add(i)
+        if 'lin' in saved:
+            _restore_linear(model, saved['lin'])
+        if 'broyden' in saved:
+            _restore_broyden(model, saved['broyden'])
+        if 'approx' in saved:
+            _restore_approx(model, saved['approx'])
+        if 'resid' in saved:
+            model._residuals.set_val(saved['resid'])
+        if op.get('keep'):
+            self.results[i] = copy.deepcopy(res)
+        return stale
 
 
 def _tol(plan):
@@ -950,6 +1031,31 @@ def _compare(plan, ra, rb, a_only_before):
     return bad
 
 
+def _cells(plan, acc, mode):
+    cfg = plan['cfg']
+    for nl in plan['nls']:
+        acc.count('cell:nl=%s' % nl)
+    f = []
+    _walk(plan['spec']['tree'], lambda n: f.append(1) if n.get('nl', {}).get('use_aitken') else None)
+    if f:
+        acc.count('cell:aitken')
+    if cfg['coloring']:
+        acc.count('cell:coloring-declared')
+    styles = set(s for c in plan['spec']['comps'] for s in c.get('styles', {}).values())
+    if styles & {'fd', 'cs'}:
+        acc.count('cell:approx-partials')
+    if 'matfree' in styles:
+        acc.count('cell:matfree')
+    if cfg['approx_totals']:
+        acc.count('cell:approx_totals')
+    if plan['spec']['opts'].get('p_scaling'):
+        acc.count('cell:scaling')
+    if cfg['discrete']:
+        acc.count('cell:discrete')
+    acc.count('cell:mode=%s' % mode)
+    return styles
+
+
 def run_case(case, acc):
     seed = case['seed']
     plan = make_plan(seed)
@@ -958,23 +1064,33 @@ def run_case(case, acc):
     a_only = [i for i, op in enumerate(hist) if not op.get('keep')]
     viols = []        # (key, what)
     with FailureMonitor() as fmon:
-        try:
-            ra = HistoryRun(plan).run()
-            rb = HistoryRun(plan).run(include=keep)
-        except Exception as e:   # setup / run_model / set_val on a legal program
-            if os.environ.get('OMV_DEBUG'):
-                import traceback
-                traceback.print_exc()
-            acc.viol(exc_key('setup-or-run', e), '%s: %s' % (type(e).__name__, str(e)[:300]), case)
+        ra = HistoryRun(plan).run()
+        rb = HistoryRun(plan).run(include=keep)
+        # ---- cases that cannot be judged ----------------------------------------------------------------
+        if ra.qexc or rb.qexc:
+            q = ra.qexc or rb.qexc
+            # an exception escaping a query call is not a statement about read-only-ness; it is recorded here
+            acc.skip('query-call-raises:' + q[0])
+            return
+        if ra.fatal and rb.fatal and ra.fatal[2] == rb.fatal[2]:
+            acc.skip('setup-or-run-raises-in-both-histories:' + ra.fatal[0])
             return
         for k, n in ra.counts.items():
             acc.count(k, n)
         for r in (ra, rb):
-            for key, what, i in r.exc:
-                viols.append((key, 'history step %d (%s): %s' % (i, hist[i]['op'], what)))
             for key, what, i in r.ro_viol:
                 viols.append((key, 'history step %d: %s' % (i, what)))
-        if not ra.exc and not rb.exc:
+        if ra.fatal or rb.fatal:
+            # set_val / run_model raises in one history only: caused by the query calls that history A made
+            ft = ra.fatal or rb.fatal
+            who = 'with' if ra.fatal else 'WITHOUT'
+            if ft[3] == 'broyden.py:_update_inverse_jacobian':
+                key = 'broyden-jacobian-carried-over:run_model-raises:' + ft[0].split(':raises:')[-1].split('@')[0]
+            else:
+                key = 'hidden-state:run_model-raises:' + ft[0].split(':raises:')[-1]
+            viols.append((key, 'history step %d (%s) raises only in the history %s the preceding query calls: %s' %
+                          (ft[2], hist[ft[2]]['op'] if ft[2] >= 0 else 'first run', who, ft[1])))
+        else:
             # same program built twice in one process
             acc.count('obs:rebuild-compare')
             if _canon(ra.first) != _canon(rb.first):
@@ -993,38 +1109,14 @@ def run_case(case, acc):
                     # a query call of history A changed a vector (reported above): later differences follow from it
                     acc.count('obs:hidden-state-explained-by-vector-change')
                 else:
-                    culprit = _find_culprit(plan, keep, a_only, i0, a_only_before)
+                    culprit = _find_culprit(plan, keep, a_only, i0)
                     viols.append(('hidden-state:%s:%s' % (culprit, lab0),
                                   'result of step %d (%s) depends on query calls made before it (%s): %s' %
                                   (i0, lab0, culprit, txt0)))
         failed = len(fmon.failures)
     if failed:
         acc.count('obs:solver-failure-reported')
-    # cells
-    for nl in plan['nls']:
-        acc.count('cell:nl=%s' % nl)
-
-    def has_aitken(node, found):
-        if node.get('nl', {}).get('use_aitken'):
-            found.append(1)
-    f = []
-    _walk(plan['spec']['tree'], lambda n: has_aitken(n, f))
-    if f:
-        acc.count('cell:aitken')
-    if cfg['coloring']:
-        acc.count('cell:coloring-declared')
-    styles = set(s for c in plan['spec']['comps'] for s in c.get('styles', {}).values())
-    if styles & {'fd', 'cs'}:
-        acc.count('cell:approx-partials')
-    if 'matfree' in styles:
-        acc.count('cell:matfree')
-    if cfg['approx_totals']:
-        acc.count('cell:approx_totals')
-    if plan['spec']['opts'].get('p_scaling'):
-        acc.count('cell:scaling')
-    if cfg['discrete']:
-        acc.count('cell:discrete')
-    acc.count('cell:mode=%s' % ra.prob._mode)
+    styles = _cells(plan, acc, ra.prob._mode)
     if viols:
         seen = set()
         first = True
@@ -1045,30 +1137,35 @@ def run_case(case, acc):
                    'coloring': cfg['coloring'], 'approx_totals': cfg['approx_totals'], 'history': kinds})
 
 
-def _find_culprit(plan, keep, a_only, i0, a_only_before):
-    """which single query call (made only in history A, before step i0) reproduces the discrepancy at step i0?
-    Diagnosis by intervention: if putting the LINEAR vectors back right after that call removes the discrepancy, the
-    mechanism is the left-over content of the linear vectors (initial guess of iterative linear solvers)."""
+def _find_culprit(plan, keep, a_only, i0):
+    """Which single query call (made only in history A, before step i0) reproduces the discrepancy at step i0, and
+    which intervention (MECHS) removes it?  -> '<mechanism>:<api>' | '<api>' | 'several-calls'"""
     cfg = plan['cfg']
     hist = plan['hist']
     cands = [j for j in a_only if j < i0]
+
+    def differs(r, ref, j):
+        def aob(i, fn):
+            return hist[j]['op'] == 'coloring' and hist[j].get('fn') == fn and j < i
+        if r.qexc or r.fatal or i0 not in r.results:
+            return None
+        return any(i == i0 for i, _, _ in _compare(plan, r, ref, aob))
     try:
         ref = HistoryRun(plan).run(include=set(keep))
         for j in cands:
-            def aob(i, fn, j=j):
-                return hist[j]['op'] == 'coloring' and hist[j].get('fn') == fn and j < i
-            r1 = HistoryRun(plan).run(include=set(keep) | {j})
-            if r1.exc or i0 not in r1.results:
+            if not differs(HistoryRun(plan).run(include=set(keep) | {j}), ref, j):
                 continue
-            if any(i == i0 for i, _, _ in _compare(plan, r1, ref, aob)):
-                r2 = HistoryRun(plan).run(include=set(keep) | {j}, keep_lin_across={j})
-                if not r2.exc and not any(i == i0 for i, _, _ in _compare(plan, r2, ref, aob)):
-                    return 'leftover-linear-vectors:' + _label(hist[j], cfg)
-                if 'broyden' in plan['nls']:
-                    r3 = HistoryRun(plan).run(include=set(keep) | {j}, keep_lin_across={j}, keep_broyden_across={j})
-                    if not r3.exc and not any(i == i0 for i, _, _ in _compare(plan, r3, ref, aob)):
-                        return 'broyden-jacobian-carried-over:' + _label(hist[j], cfg)
-                return _label(hist[j], cfg)
+            for name, what in MECHS:
+                if 'broyden' in what and 'broyden' not in plan['nls']:
+                    continue
+                if 'approx' in what and not cfg['approx_totals']:
+                    continue
+                r2 = HistoryRun(plan).run(include=set(keep) | {j}, keep_across={j: what})
+                if differs(r2, ref, j) is False:
+                    return '%s:%s' % (name, _label(hist[j], cfg))
+            return _label(hist[j], cfg)
+    except HarnessError:
+        raise
     except Exception:
         if os.environ.get('OMV_DEBUG'):
             import traceback
